@@ -19,6 +19,8 @@ import (
 	"fmt"
 	"io"
 	"math"
+	"os"
+	"os/exec"
 	"reflect"
 	"regexp"
 	"strconv"
@@ -143,6 +145,7 @@ type rbRec struct {
 	fmtPan  string
 	extra   []string
 	bounds  string
+	uvStr   string   // Str of the first *json.UnsupportedValueError met (hex), as "uvstr=..."
 	recs    []string // distinct "pos:srclen:e|n:type" of errors that expose a position (first 12)
 	recSeen map[string]bool
 }
@@ -277,6 +280,16 @@ func (r *rbRec) check(err error) {
 	if len(msg) > r.maxLen {
 		r.maxLen = len(msg)
 	}
+	if uv, ok := err.(*json.UnsupportedValueError); ok && r.uvStr == "" {
+		str, p3 := safeCall(func() string { return uv.Str })
+		if p3 != "" {
+			str = "PANIC"
+		}
+		r.uvStr = "uvstr=" + hexArg([]byte(str))
+		if len(str) > 64 {
+			r.uvStr = "uvstr=" + hexArg([]byte(str[:64]))
+		}
+	}
 	desc := ""
 	if d, ok := err.(interface{ Description() string }); ok {
 		var p2 string
@@ -391,6 +404,9 @@ func (r *rbRec) line(status string) string {
 	if r.fmtPan != "" {
 		sb.WriteString("\tfmtpanic=" + r.fmtPan)
 	}
+	if r.uvStr != "" {
+		sb.WriteString("\t" + r.uvStr)
+	}
 	for _, e := range r.extra {
 		sb.WriteString("\t" + e)
 	}
@@ -405,6 +421,7 @@ func (r *rbRec) line(status string) string {
 // deadlines are deliberately far above the normal running time (milliseconds; seconds for 10^6-deep inputs): the
 // machine may be heavily loaded, and a slow answer must never be mistaken for a hang
 var rbLimit = 60 * time.Second
+var rbSelfLimit = 8 * time.Second
 
 // guarded runs f in a fresh goroutine; a panic becomes sonic=PANIC, a missed deadline sonic=HANG.
 func robustGuarded(limit time.Duration, f func() string) string {
@@ -548,7 +565,7 @@ var rbDests = []string{"iface", "struct", "map", "slice", "int", "pint", "raw", 
 var rbCfgs = []string{"def", "std", "fast"}
 var rbPlain = []string{"valid", "valids", "validstd", "get", "gets", "getopt", "searcher", "loads", "loadsnum", "parse", "parsenolazy",
 	"raw_check", "raw_load", "raw_loadall", "raw_iface", "raw_ifacenum", "raw_ifacenode", "raw_marshal", "raw_walk", "raw_conv", "raw_iter", "raw_foreach",
-	"raw_sort", "raw_map", "raw_arr", "raw_edit", "raw_unsetpop", "rawcr_walk", "node_unmarshal", "preorder", "preordernum", "stream1", "stream7", "streamall", "streamstd",
+	"raw_sort", "raw_map", "raw_arr", "raw_edit", "raw_unsetpop", "rawcr_walk", "node_unmarshal", "preorder", "preordernum", "stream1", "stream7", "streamall", "streamstd", "streambuf",
 	"skip", "dec_opts:0", "dec_opts:1", "dec_opts:2", "dec_opts:3", "dec_opts:4", "dec_opts:5", "dec_opts:6", "dec_opts:7", "dec_multi"}
 
 func rbAPIs() []string {
@@ -839,6 +856,24 @@ func rbRun(api string, doc []byte) string {
 		r.add("decoded=" + itoa(okc))
 		if status != "" {
 			return r.line(status)
+		}
+	case "streambuf":
+		// Buffered() after every Decode, successful or not
+		dec := decoder.NewStreamDecoder(&rbChunkReader{b: append([]byte(nil), doc...), n: len(doc) + 1})
+		for k := 0; k < 8; k++ {
+			var v interface{}
+			e := dec.Decode(&v)
+			b, _ := io.ReadAll(dec.Buffered())
+			r.add("buf" + itoa(k) + "=" + itoa(len(b)))
+			_ = dec.InputOffset()
+			_ = dec.More()
+			if e != nil {
+				if e != io.EOF {
+					r.check(e)
+				}
+				b, _ = io.ReadAll(dec.Buffered())
+				break
+			}
 		}
 	case "skip":
 		st, end := decoder.Skip(doc)
@@ -1237,7 +1272,128 @@ func rbDeepDoc(open []byte, depth int, core, cl []byte) []byte {
 	return b
 }
 
+// ---------------------------------------------------------------- destination / source TYPES
+
+type rbSelfPtr *rbSelfPtr
+type rbMutA *rbMutB
+type rbMutB *rbMutA
+type rbSelfHolder struct {
+	A int        `json:"a"`
+	P rbSelfPtr  `json:"p"`
+	Q *rbSelfPtr `json:"q"`
+}
+
+// rbType builds a type nested n levels (reflect), or one of the self-referential pointer types.
+func rbType(kind string, n int) reflect.Type {
+	switch kind {
+	case "selfptr":
+		return reflect.TypeOf(rbSelfPtr(nil))
+	case "mutptr":
+		return reflect.TypeOf(rbMutA(nil))
+	case "selfholder":
+		return reflect.TypeOf(rbSelfHolder{})
+	case "selfslice":
+		return reflect.TypeOf([]rbSelfPtr(nil))
+	case "selfmap":
+		return reflect.TypeOf(map[string]rbSelfPtr(nil))
+	}
+	t := reflect.TypeOf(0)
+	for i := 0; i < n; i++ {
+		switch kind {
+		case "arr":
+			t = reflect.ArrayOf(1, t)
+		case "slice":
+			t = reflect.SliceOf(t)
+		case "ptr":
+			t = reflect.PtrTo(t)
+		case "map":
+			t = reflect.MapOf(reflect.TypeOf(""), t)
+		case "struct":
+			t = reflect.StructOf([]reflect.StructField{{Name: "A", Type: t, Tag: `json:"a"`}})
+		case "ptrstruct":
+			t = reflect.PtrTo(reflect.StructOf([]reflect.StructField{{Name: "A", Type: t, Tag: `json:"a"`}}))
+		case "arrptr":
+			t = reflect.PtrTo(reflect.ArrayOf(1, t))
+		default:
+			panic("unknown type kind " + kind)
+		}
+	}
+	return t
+}
+
+var rbTypeKinds = []string{"arr", "slice", "ptr", "map", "struct", "ptrstruct", "arrptr"}
+var rbSelfKinds = []string{"selfptr", "mutptr", "selfholder", "selfslice", "selfmap"}
+
+func rbTypeOp(op, kind string, n int) string {
+	t := rbType(kind, n)
+	docs := map[string]string{"unmnull": "null", "unm1": "1", "unmobj": `{"a":1,"p":null,"q":1}`}
+	r := newRec(len(docs[op]))
+	// error texts name the type: its printed length is part of what bounds the message
+	r.add("tlen=" + itoa(len(t.String())))
+	switch op {
+	case "mar":
+		out, err := sonic.Marshal(reflect.New(t).Interface())
+		r.check(err)
+		r.add("outlen=" + itoa(len(out)))
+	case "marstd":
+		out, err := sonic.ConfigStd.Marshal(reflect.New(t).Elem().Interface())
+		r.check(err)
+		r.add("outlen=" + itoa(len(out)))
+	case "unmnull":
+		r.check(sonic.Unmarshal([]byte(docs[op]), reflect.New(t).Interface()))
+	case "unm1":
+		r.check(sonic.Unmarshal([]byte(docs[op]), reflect.New(t).Interface()))
+	case "unmobj":
+		r.check(sonic.ConfigStd.Unmarshal([]byte(docs[op]), reflect.New(t).Interface()))
+	case "pre":
+		r.check(sonic.Pretouch(t))
+	case "predec":
+		r.check(decoder.Pretouch(t))
+	case "preenc":
+		r.check(encoder.Pretouch(t))
+	default:
+		return "sonic=unsupported"
+	}
+	return r.line("")
+}
+
+var rbTypeOps = []string{"mar", "marstd", "unmnull", "unm1", "unmobj", "pre", "predec", "preenc"}
+
 func init() {
+	registerOp("rtype", func(a []string) string {
+		n, _ := strconv.Atoi(a[2])
+		self := false
+		for _, k := range rbSelfKinds {
+			self = self || k == a[1]
+		}
+		if self && os.Getenv("VH_RTYPE_CHILD") == "" {
+			// a compile that never ends cannot be stopped in-process: run the case in a child worker and kill it
+			// after rbSelfLimit (a compile takes milliseconds)
+			cmd := exec.Command(os.Args[0], "run")
+			cmd.Env = append(os.Environ(), "VH_RTYPE_CHILD=1")
+			cmd.Stdin = strings.NewReader("rtype\t" + strings.Join(a, "\t") + "\n")
+			var out bytes.Buffer
+			cmd.Stdout = &out
+			if err := cmd.Start(); err != nil {
+				return "sonic=unsupported\twhy=cannot start child"
+			}
+			done := make(chan error, 1)
+			go func() { done <- cmd.Wait() }()
+			select {
+			case err := <-done:
+				line := strings.TrimRight(out.String(), "\r\n")
+				if err != nil || !strings.HasPrefix(line, "sonic=") {
+					return "sonic=CRASH\tcrash=child worker died"
+				}
+				return line
+			case <-time.After(rbSelfLimit):
+				cmd.Process.Kill()
+				<-done
+				return "sonic=HANG\tlimit=" + rbSelfLimit.String()
+			}
+		}
+		return robustGuarded(rbLimit, func() string { return rbTypeOp(a[0], a[1], n) })
+	})
 	registerOp("crash", func(a []string) string {
 		doc := unhexArg(a[1])
 		return robustGuarded(rbLimit, func() string { return rbRun(a[0], doc) })
